@@ -613,6 +613,7 @@ int main(int argc, char ** argv)
       std::vector<double> tplan;
       bool reserve_event = false;
       bool keep_pars     = false;
+      double knife_override = -1.0;
       std::vector<double> bbplan_first;
       // optional trailers ("R": event object with room for 64 particles): "T k v1..vk" transition-outcome deviates; "N c1..c7" nuclear matrix elements of the
       // rhc-eta mode, set on both sides (Decay0: COMMON /eta_nme/); "K": the caller-owned parameter block of the previous "K" job is
@@ -635,6 +636,8 @@ int main(int argc, char ** argv)
             reserve_event = true;
           } else if (tag == "K") {
             keep_pars = true;
+          } else if (tag == "M") {
+            ls >> knife_override;   // knife-edge margin of this job (probes whose only near-boundary trial is a plain function evaluation)
           } else if (tag == "B") {
             // deviates of the first draws made directly inside decay0_bb (first event only): trial energy, ordinate, ...
             size_t k;
@@ -747,7 +750,8 @@ int main(int argc, char ** argv)
             for (const auto & e : rec.evs)
               if (e.kind == 2 && e.name == "bb_pair" && (e.a[0] < 50e-6 || e.a[1] < 50e-6)) r.cls = "ref-fermi-clamp-excluded";
           }
-          if (r.cls != "agree" && r.cls != "ref-fermi-clamp-excluded" && r.min_margin < (mode == 4 || mode == 5 || mode == 6 || mode == 8 || mode >= 13 ? 1e-3 : KNIFE)) {
+          if (r.cls != "agree" && r.cls != "ref-fermi-clamp-excluded"
+              && r.min_margin < (knife_override >= 0 ? knife_override : (mode == 4 || mode == 5 || mode == 6 || mode == 8 || mode >= 13 ? 1e-3 : KNIFE))) {
             r.detail = "(knife-edge margin " + fmt(r.min_margin) + ") " + r.cls + ": " + r.detail;
             r.cls    = "knife-edge-excluded";
           }
